@@ -79,7 +79,7 @@ Lemma collect_members_all : forall gap (p : jv -> text) (L : list (list N * jv))
 Proof. induction L as [|[k v] L IH]; simpl; auto. rewrite IH. reflexivity. Qed.
 
 Lemma ser_json_shaped : forall v, json_shaped v = true ->
-  forall gap ind key, ser false None None gap ind true key v = Some (Some (print_g gap ind (to_json v))).
+  forall gap ind key, ser None None gap ind true key v = Some (Some (print_g gap ind (to_json v))).
 Proof.
   induction v using jv_ind2; intros JS gap ind key.
   - destruct v; try contradiction; try discriminate; try reflexivity.
@@ -88,12 +88,12 @@ Proof.
   - (* arrays *)
     simpl in JS. cbn [ser to_json print_g]. cbn [rf_drops].
     assert (G : forall l i, Forall (fun v => json_shaped v = true ->
-                   forall gap ind key, ser false None None gap ind true key v = Some (Some (print_g gap ind (to_json v)))) l ->
+                   forall gap ind key, ser None None gap ind true key v = Some (Some (print_g gap ind (to_json v)))) l ->
                forallb json_shaped l = true ->
                collect_elems ((fix go (i : N) (l : list jv) : list sres :=
                                  match l with
                                  | [] => []
-                                 | x :: r => ser false None None gap (ind ++ gap) true (dec_digits i) x :: go (i + 1) r
+                                 | x :: r => ser None None gap (ind ++ gap) true (dec_digits i) x :: go (i + 1) r
                                  end) i l)
                = Some (map (print_g gap (ind ++ gap)) (map to_json l))).
     { induction l0 as [|x l0 IH]; intros i F S; simpl; auto.
@@ -102,7 +102,7 @@ Proof.
     rewrite (G l 0 H JS). reflexivity.
   - (* objects *)
     simpl in JS. cbn [ser to_json print_g]. cbn [rf_drops].
-    assert (E : map (fun kv : list N * jv => (fst kv, ser false None None gap (ind ++ gap) true (fst kv) (snd kv))) l
+    assert (E : map (fun kv : list N * jv => (fst kv, ser None None gap (ind ++ gap) true (fst kv) (snd kv))) l
               = map (fun kv => (fst kv, (fun x => Some (Some (print_g gap (ind ++ gap) (to_json x)))) (snd kv))) l).
     { apply map_ext_in. intros kv IN. rewrite Forall_forall in H. rewrite forallb_forall in JS.
       rewrite (H kv IN (JS kv IN)). reflexivity. }
@@ -117,7 +117,7 @@ Qed.
 Lemma stringify_json_shaped : forall v space, json_shaped v = true ->
   stringify v RNone space = SText (print_g (gap_of space) [] (to_json v)).
 Proof.
-  intros. unfold stringify, stringify_g. rewrite ser_json_shaped; auto.
+  intros. unfold stringify. rewrite ser_json_shaped; auto.
 Qed.
 
 (* ... hence it parses back to that value (round trip through the real serialiser model), whenever the gap
@@ -142,11 +142,12 @@ Proof.
 Qed.
 
 (* Object.MarshalJSON agrees with JSON.stringify wherever stringify produces a text or throws *)
-Lemma marshal_agrees : forall sb v, stringify_g sb v RNone VUndef <> SUndef ->
-  marshal_g sb v = stringify_g sb v RNone VUndef.
-Proof. intros sb v H. unfold marshal_g. destruct (stringify_g sb v RNone VUndef); congruence. Qed.
+Lemma marshal_agrees : forall v, stringify v RNone VUndef <> SUndef -> marshal v = stringify v RNone VUndef.
+Proof. intros v H. unfold marshal. destruct (stringify v RNone VUndef); congruence. Qed.
 
-(* recorded finding F-C19-4: the implementation-shaped variant (a Symbol wrapper read as undefined, as goja does)
-   is NOT the specification *)
-Lemma symbol_wrapper_refuted : exists v, stringify_g true v RNone VUndef <> stringify v RNone VUndef.
-Proof. exists (VArr [VBoxSym]). vm_compute. discriminate. Qed.
+(* formerly recorded finding F-C19-4, now the specified behaviour: a Symbol wrapper object is an ordinary object *)
+Lemma symbol_wrapper_is_object :
+  stringify VBoxSym RNone VUndef = SText [123; 125] /\
+  stringify (VArr [VBoxSym]) RNone VUndef = SText [91; 123; 125; 93] /\
+  marshal VBoxSym = SText [123; 125].
+Proof. vm_compute. repeat split; reflexivity. Qed.
